@@ -15,6 +15,7 @@ mod c11;
 mod c12;
 mod entropy;
 mod c15;
+mod c17;
 mod c20;
 mod tdcheck;
 mod c03;
@@ -29,7 +30,8 @@ fn main() {
         match refmodel::selftest::run() { Ok(n) => { println!("reference self-test: {n} known answers ok"); return; } Err(e) => { eprintln!("ENGINE-ERROR reference self-test failed: {e}"); std::process::exit(2); } }
     }
     if let Err(e) = refmodel::selftest::run() { eprintln!("ENGINE-ERROR reference self-test failed: {e}"); std::process::exit(2); }
-    let ctx: &'static Ctx = Box::leak(Box::new(Ctx::from_args(&id, "L", &args[1..])));
+    let mut c = Ctx::from_args(&id, "L", &args[1..]); c.panic_only = id == "C17";
+    let ctx: &'static Ctx = Box::leak(Box::new(c));
     match id.as_str() {
         "C01" => c01::run(ctx),
         "C02" => c02::run(ctx),
@@ -45,6 +47,7 @@ fn main() {
         "C12" => c12::run(ctx),
         "C13" => c13::run(ctx),
         "C15" => c15::run(ctx),
+        "C17" => c17::run(ctx),
         "C20" => c20::run(ctx),
         "C14" => c14::run(ctx),
         _ => { eprintln!("unknown property {id}"); std::process::exit(2); }
